@@ -6,6 +6,7 @@ MODULE = "DtailModel.Props.C05"
 GEN_UNITS = ("Mapr",)
 GROUPS = ["C05", "C11", "GEN", "C15"]
 LOGGER = "none"
+JOBS = 16
 BUDGET = {"quick": 1500, "thorough": 40000}
 LEVEL_TEXT = ("Lean theorems: per operation the partial aggregates form a monoid under the merge, per-line aggregation is a "
               "homomorphism, hence for every table, query, partition into servers x intervals the merged result equals the central "
@@ -59,6 +60,9 @@ def query(rng):
     g = rng.choice([None, "host", "host,msg", "msg", "$m", "x"])
     if g:
         q += " group by " + g
+    if rng.random() < 0.3:
+        # order / limit only shape the final report: every partial result still has to carry all its groups
+        q += f" {rng.choice(['order', 'rorder'])} by {sels[0]} limit {rng.choice([1, 1, 2, 3])}"
     return q
 
 
@@ -79,7 +83,8 @@ def _gen_hand(rng, budget, tier):
             pass
         enc = "/".join(";".join(",".join(hexs(l.encode()) for l in iv) if iv else "-" for iv in sv) for sv in servers)
         q = query(rng) + ("" if fmt == "default" else " logformat " + fmt)
-        yield f"c05.agg {hexs(q.encode())} {fmt} {enc}"
+        # one case in six runs the real aggregator goroutines (Start / aggregateAndSerialize / interim Serialize) on the server side
+        yield f"c05.agg {hexs(q.encode())} {fmt} {enc}" + (" real" if rng.random() < 0.17 else "")
 
 
 from props import c15 as _c15
